@@ -35,9 +35,9 @@ Definition table_close (ordered : bool) (m o : table) : bool :=
   let mr := map (fun r => map (get (cols m) r) (cols o)) (rows m) in
   if ordered then rows_close mr (rows o) else bag_close mr (rows o).
 
-Record scase := mkcase { pipeline : op; tables : env; observed : option table; ordered : bool; colorder : bool; nullmatch : bool }.
+Record scase := mkcase { pipeline : op; tables : env; observed : option table; ordered : bool; colorder : bool; fl : flavor }.
 Definition case_ok (c : scase) : bool :=
-  match sem_gen (nullmatch c) (pipeline c) (tables c), observed c with
+  match sem_gen (fl c) (pipeline c) (tables c), observed c with
   | Some m, Some o => table_close (ordered c) m o && (if colorder c then eqb (cols m) (cols o) else true)
                       && eqb (column_names (pipeline c)) (cols m)
   | None, None => true
